@@ -30,6 +30,12 @@ pub fn main() -> i32 {
             let seed: u64 = args.get("--seed").and_then(|s| s.parse().ok()).unwrap_or(1);
             checks::run_check(&id, &tier, seed)
         }
+        "pure-sub" => {
+            let id = v.get(2).cloned().unwrap_or_default();
+            let tier = args.get("--tier").unwrap_or("quick".into());
+            let seed: u64 = args.get("--seed").and_then(|s| s.parse().ok()).unwrap_or(1);
+            crate::checks_pure::pure_sub(&id, &tier, seed)
+        }
         "replay" => checks::replay(&v.get(2).cloned().unwrap_or_default()),
         "run" => checks::dev_run(&args),
         _ => 2,
